@@ -253,7 +253,11 @@ func (x *Exec) libCall(fr *Frame, st *State, key string, callee *ssa.Function, a
 			nh := x.freshOfType(st, hpl.Type(), "heaphdr")
 			x.storePlace(st, hpl, nh.S)
 			for _, m := range ms[1:] {
-				x.havocKeyCall(st, m.key, m.t)
+				if m.fields != nil {
+					x.havocModTarget(st, m)
+				} else {
+					x.havocKeyCall(st, m.key, m.t)
+				}
 			}
 			x.trust("container/heap operations are modelled as a frame only: they may change the heap's own slice, its elements and the element objects' fields; nothing else (results unconstrained)")
 			return x.freshOfType(st, rt, "heapop"), true
@@ -699,9 +703,52 @@ func heapOpMods(cc *ssa.CallCommon) ([]modTarget, bool) {
 	ms := []modTarget{{key: hk0, t: ht0}, {key: heapKeySlice(sl.Elem()), t: sl.Elem()}}
 	if ept, ok := sl.Elem().Underlying().(*types.Pointer); ok {
 		hk, ht := heapKeyForObj(ept.Elem())
-		ms = append(ms, modTarget{key: hk, t: ht})
+		mt := modTarget{key: hk, t: ht}
+		if heapElemFields != nil {
+			// container/heap reaches the elements only through the heap type's own
+			// Len/Less/Swap/Push/Pop: the element fields those methods store into
+			if fs, ok := heapElemFields(pt, hk); ok {
+				mt.fields = fs
+			}
+		}
+		ms = append(ms, mt)
 	}
 	return ms, true
+}
+
+// heapElemFields (set while a function is executed): the top-level fields of element
+// objects (heap key hk) that the methods of the heap type *T write; ok=false when unknown.
+var heapElemFields func(pt *types.Pointer, hk string) (map[int]bool, bool)
+
+func (x *Exec) heapElemFieldsOf(pt *types.Pointer, hk string) (map[int]bool, bool) {
+	ms := x.prog.ssaProg.MethodSets.MethodSet(pt)
+	acc := map[string]modTarget{}
+	for i := 0; i < ms.Len(); i++ {
+		switch ms.At(i).Obj().Name() {
+		case "Len", "Less", "Swap", "Push", "Pop":
+		default:
+			continue
+		}
+		fn := x.prog.ssaProg.MethodValue(ms.At(i))
+		if fn == nil {
+			return nil, false
+		}
+		x.prog.ensureBuilt(fn)
+		if fn.Blocks == nil {
+			return nil, false
+		}
+		if x.collectMods(fn, nil, map[*ssa.Function]bool{fn: true}, acc, 1) {
+			return nil, false
+		}
+	}
+	m, touched := acc[hk]
+	if !touched {
+		return map[int]bool{}, true
+	}
+	if m.fields == nil {
+		return nil, false
+	}
+	return m.fields, true
 }
 
 // sliceOpMods: the element array key of the slice a library operation works on in place.
